@@ -362,7 +362,16 @@ func runC02(c *harness.Ctx) {
 		tampered := false
 		key := append(append([]byte{}, rid.Pub[:]...), rid.NodeID[:]...)
 		_ = key
+		// what the handshake part of the response was, and what the client was given in its place
+		var genuine, given []byte
+		silent := false
 		l.BA.Filter = func(off int64, p []byte) []byte {
+			if silent {
+				return p[:0]
+			}
+			if off != 0 && tampered && len(given) < len(genuine) {
+				given = append(given, p...)
+			}
 			if off != 0 || tampered || len(p) < 96 {
 				return p
 			}
@@ -394,7 +403,11 @@ func runC02(c *harness.Ctx) {
 			c.S.CountLocked("fault.tamper-response-"+fields[field], 1)
 			c.Info["tamper_offset"] = at
 			if field == 5 {
-				// cut inside MAC_S and never deliver the rest
+				// cut inside MAC_S; either nothing more is ever delivered, or
+				// whatever the server sends next is spliced on behind the cut
+				genuine = append([]byte(nil), p[:pos+32]...)
+				given = append([]byte(nil), p[:at]...)
+				silent = bit%2 == 0
 				return p[:at]
 			}
 			if field == 0 && at == 31 && bit >= 6 {
@@ -414,7 +427,12 @@ func runC02(c *harness.Ctx) {
 		c.S.Run(func() bool { return o.done }, 3*time.Minute)
 		c.Reached = true
 		c.Nontrivial = tampered
-		if tampered {
+		if tampered && field == 5 && len(given) >= len(genuine) && bytes.Equal(given[:len(genuine)], genuine) {
+			// the bytes spliced on behind the cut happen to equal the ones cut
+			// out (one byte of MAC_S: 1 in 256): the client saw the genuine
+			// handshake, byte for byte, and may complete
+			c.Feature("splice-recreated-the-genuine-handshake")
+		} else if tampered {
 			mustFail(&o, "response with modified "+fields[field])
 		} else if o.err != nil {
 			c.Violate("C02/genuine-handshake-failed", "untampered handshake failed: %v", o.err)
